@@ -560,6 +560,8 @@ def _row_read(k):
             b = _atom(q[0])
             if b is not None and b[0] == "attr" and b[2] == "iloc":
                 return _base_key(b[1]), col, row
+            if b is not None and b[0] == "attr" and b[2] in ("loc", "at"):
+                return _base_key(b[1]), col, ("label", row)  # read by index *label*, not by position
     return None
 
 
@@ -650,6 +652,16 @@ def rule_A3(ctx):
             return
     if rc is None or ri is None:
         raise AnalysisError("write_map_results (frequency): chain / entry pointers are not reads of one row of a frame (%s ; %s)" % (show_key(Ck)[:120], show_key(Ik)[:120]))
+    for nm, r in (("chain", rc), ("entry", ri)):
+        if isinstance(r[2], tuple):
+            inf = _sort_info(r[0])
+            if inf is not None and not inf["reset"]:
+                ctx.fail("A3", "write_map_results (frequency): chain and entry are columns chain_num / iter of row 0 of one frame", m.where(freq.node), "the %s index is read with .loc[%s] from a frame that was sorted without resetting its index: label %s names the row that was first *before* the sort (the best-scoring topology), not the most frequent one" % (nm, r[2][1], r[2][1]), construct=m.qualname, stmt="frequency pointer")
+                _lower_min(ctx, "A3")
+                ctx.analysed(m)
+                return
+    rc = (rc[0], rc[1], rc[2][1] if isinstance(rc[2], tuple) else rc[2])
+    ri = (ri[0], ri[1], ri[2][1] if isinstance(ri[2], tuple) else ri[2])
     ok = rc[1] == "chain_num" and ri[1] == "iter" and rc[0] == ri[0] and rc[2] == 0 and ri[2] == 0
     ctx.check(ok, "A3", "write_map_results (frequency): chain and entry are columns chain_num / iter of row 0 of one frame", m.where(freq.node), "chain is read from column %r (row %s) and entry from column %r (row %s) of %s" % (rc[1], rc[2], ri[1], ri[2], "the same frame" if rc[0] == ri[0] else "different frames"), construct=m.qualname, stmt="frequency pointer")
     info = _sort_info(ri[0])
